@@ -1,7 +1,7 @@
 (* C06: the ACF-CAN builders emit a well-formed, exactly padded message. *)
 From Coq Require Import List NArith ZArith Bool Lia Arith String ZifyN ZifyNat ZifyBool Permutation.
 From O1722 Require Import Sym Bits Host FieldModel FieldProofs Spec SpecProofs RecordTheory AccModel AccProofs FormatChecks
-  NormalProofs Paths CanModel C13Proofs C01Proofs C17Proofs C12Proofs C05Proofs FieldOpsProofs.
+  NormalProofs ByteLemmas Paths CanModel C13Proofs C01Proofs C17Proofs C12Proofs C05Proofs FieldOpsProofs.
 From O1722.Generated Require Import Tables.
 Import ListNotations.
 Local Open Scope N_scope.
@@ -10,11 +10,6 @@ Ltac Zify.zify_post_hook ::= Z.div_mod_to_equations.
 Notation normal := SpecProofs.normal.
 
 (* ---------- byte-level lemmas about upd and spec_insert ---------- *)
-Lemma upd_nil b a : a <= blen b -> upd b a [] = b.
-Proof.
-  intros H. unfold upd. cbn [List.length]. replace (a + N.of_nat 0 <=? blen b) with true by (symmetry; apply N.leb_le; lia).
-  cbn [app]. rewrite Nat.add_0_r. apply firstn_skipn.
-Qed.
 Lemma blen_upd' b a bs : blen (upd b a bs) = blen b.
 Proof. apply blen_upd. Qed.
 
